@@ -1,5 +1,6 @@
 //! Bounded stand-in / failing-input search for unit U4 (permutation group) — NOT a proof.
 //! host: src/group/mod.rs
+//! functions: Group::add_set Group::all_perms Group::contains Group::count Group::is_trivial Group::new Group::orbit
 //! Bound: every generator set of size <= 2 over the 24 permutations of 4 slots (and all 6 of 3 slots):
 //! contains / count / all_perms / orbit / add_set compared with brute-force closure; incremental growth (new with one
 //! generator, then add of a second): every ordered pair over S4, 120 x 15 (deep: 120 x 30) pairs over S5, 45 pairs over S6.
